@@ -1,6 +1,7 @@
 import Driver.Proto
 import Driver.C21
 import Driver.C20
+import Driver.C11
 /-
   Model driver: reads one request per line on stdin (`<suite> <op> <args…>`), answers one
   line per request on stdout.  Imports models only (no Mathlib, no proofs).
@@ -11,6 +12,7 @@ def dispatch (fs : List String) : String :=
   match fs with
   | "c21" :: rest => Driver.c21 rest
   | "c20" :: rest => Driver.c20 rest
+  | "c11" :: rest => Driver.c11 rest
   | _ => "bad-op"
 
 partial def loop (h : IO.FS.Stream) (out : IO.FS.Stream) : IO Unit := do
